@@ -258,6 +258,9 @@ def run(chk):
             isinstance(n, ast.Call) and dotted(n.func) in ("time.time", "time.monotonic") for n in walk_body(f))
         chk.ob("O4.2", f"{nm} uses the same monotonic clock (perf_counter)", ok, f if f is not None else ch, "")
     trace_hook_table(chk, "O4.2", repo)
+    from rules.C18 import propagation_guard_rule
+
+    propagation_guard_rule(chk, "O4.2", ctx)
     at = arg_named("absolute_time")
     ok = False
     if at is not None and isinstance(at, ast.Name) and at.id in defs:
